@@ -115,6 +115,24 @@ func (a *acc) roundTrip(fr drpcwire.Frame, deep bool) {
 	if !bytes.Equal(enc2[:2], pre) || !bytes.Equal(enc2[2:], enc) {
 		a.fail("encode-append", "AppendFrame onto a prefix altered the result for %s", frs(fr))
 	}
+	// and onto destinations whose spare capacity ends anywhere inside the header
+	if len(fr.Data) <= 300 {
+		for spare := 0; spare <= 34; spare += 1 + spare/12 {
+			func() {
+				defer func() {
+					if p := recover(); p != nil {
+						a.fail("encode-panic", "AppendFrame(%s) onto a buffer with %d spare bytes: panic: %v", frs(fr), spare, p)
+					}
+				}()
+				dst := make([]byte, 2, 2+spare)
+				dst[0], dst[1] = 0xAA, 0xBB
+				out := drpcwire.AppendFrame(dst, fr)
+				if !bytes.Equal(out[:2], pre) || !bytes.Equal(out[2:], enc) {
+					a.fail("encode-append", "AppendFrame(%s) onto a buffer with %d spare bytes altered the result", frs(fr), spare)
+				}
+			}()
+		}
+	}
 	rem, got, ok, err := drpcwire.ParseFrame(enc)
 	if !ok || err != nil || len(rem) != 0 || got.ID != fr.ID || got.Kind != fr.Kind || got.Done != fr.Done || got.Control != fr.Control || !bytes.Equal(got.Data, fr.Data) {
 		a.fail("roundtrip", "ParseFrame(AppendFrame(%s)) = %s ok=%v err=%v rem=%d", frs(fr), frs(got), ok, err, len(rem))
@@ -163,6 +181,22 @@ func (a *acc) varint(x uint64) {
 		return
 	}
 	a.ok++
+	// appending to a destination with every amount of spare capacity: the result must not depend on it
+	for spare := 0; spare <= 12; spare++ {
+		func() {
+			defer func() {
+				if p := recover(); p != nil {
+					a.fail("varint-encode-panic", "AppendVarint(%d) onto a buffer with %d spare bytes: panic: %v", x, spare, p)
+				}
+			}()
+			dst := make([]byte, 3, 3+spare)
+			copy(dst, "abc")
+			out := drpcwire.AppendVarint(dst, x)
+			if len(out) != 3+len(enc) || string(out[:3]) != "abc" || !bytes.Equal(out[3:], enc) {
+				a.fail("varint-encode-append", "AppendVarint(%d) onto a 3-byte buffer with %d spare bytes = %x, want abc + %x", x, spare, out, enc)
+			}
+		}()
+	}
 	for l := 0; l < len(enc); l++ {
 		rem, _, ok, err := drpcwire.ReadVarint(enc[:l])
 		if ok || err != nil {
